@@ -248,4 +248,22 @@ theorem stack_spec_fails_negative_through : ¬ StackOK (judged docNegativeThroug
 /-- … while the judge accepts the solid example (the model output, evaluated) -/
 theorem stack_spec_example : StackOK (judged docSolid) := by decide +kernel
 
+/-! ## the model's two passes = the code's per-box interleaving
+
+  The code resolves percentages and the width of each box when its parent's children loop reaches
+  it and then lays it out vertically (`ibox`/`ilist` in Model.lean run in exactly that order); the
+  theorems above are about the two-pass form `vbox ∘ resolveBox`.  They are the same function: the
+  vertical pass of a box reads nothing that the horizontal pass of a later box writes (a child's
+  containing block is the parent's used width, its RESOLVED height and its content edge, all fixed
+  before the loop starts). -/
+
+theorem passes_commute (cbW : Rat) (cbH : MF) (x : Rat) (isRoot : Bool) (y0 : Rat) (adjIn : List Rat) (b : Box) :
+    ibox cbW cbH x isRoot y0 adjIn b = vbox y0 adjIn (resolveBox cbW cbH x isRoot b) :=
+  ibox_eq cbW cbH x isRoot y0 adjIn b
+
+/-- whole documents: the interleaved layout is `layoutDoc` -/
+theorem passes_commute_doc (pageW pageH : Rat) (root : Box) :
+    (ibox pageW (.val pageH) 0 true 0 [] root).tree = layoutDoc pageW pageH root := by
+  rw [passes_commute]; rfl
+
 end WR.Props.C10
